@@ -13,12 +13,17 @@
 //   X kind x a b                                        -> "X <ok> <sf> <N> <immr> <imms>" (a64::Assembler: kind 0 bfxil 1 sbfx 2 ubfx 3 bfi 4 sbfiz 5 ubfiz
 //                                                                                  6 bfc 7 bfm 8 sbfm 9 ubfm 10 lsl 11 lsr 12 asr (immediate forms); x = 1: X registers;
 //                                                                                  a, b = lsb,width / immr,imms / shift,0; fields read back from the emitted word)
+//   Y op form size acc optsize longform imm             -> "Y <ok> <has66> <rexw> <short> <opcode> <immsize> <field>"  (x86::Assembler, X64: op 0..7 =
+//                                                                                  add or adc sbb and sub xor cmp; form 0: register (acc = 1: AL/AX/EAX/RAX, else CL/CX/ECX/RCX),
+//                                                                                  form 1: <size> ptr [rcx]; EncodingOptions::kOptimizeForSize / InstOptions::kLongForm;
+//                                                                                  the emitted bytes are parsed: 66?, REX?, opcode, ModRM unless short form, immediate = rest)
 //   E width off nbits                                   -> "E <ok>"              (EmitterUtils::is_encodable_offset_32 / _64; width = 32|64)
 //   N kind n x                                          -> "N <ok>"              (Support::is_int_n<n>/is_uint_n<n>; kind: 0 = is_int_n(int64), 1 = is_int_n(uint64),
 //                                                                                  2 = is_uint_n(int64), 3 = is_uint_n(uint64), 4 = is_int_n(int32), 5 = is_uint_n(int32);
 //                                                                                  n from the instantiated list, "N -1" for any other n)
 #include <asmjit/core.h>
 #include <asmjit/a64.h>
+#include <asmjit/x86.h>
 #include <asmjit/core/codewriter_p.h>
 #include <asmjit/core/emitterutils_p.h>
 #include <asmjit/arm/armutils.h>
@@ -93,9 +98,25 @@ struct BfAsm {
   }
 };
 
+struct X86Asm {
+  CodeHolder code;
+  x86::Assembler a;
+  bool ready;
+  X86Asm() : ready(false) {}
+  bool init() {
+    if (ready) return true;
+    Environment env(Arch::kX64);
+    if (code.init(env) != Error::kOk) return false;
+    if (code.attach(&a) != Error::kOk) return false;
+    ready = true;
+    return true;
+  }
+};
+
 int main() {
   char line[512];
   static BfAsm bf;
+  static X86Asm xa;
   while (fgets(line, sizeof(line), stdin)) {
     char c = line[0];
     if (c == 'T') {
@@ -180,6 +201,38 @@ int main() {
       if (err != Error::kOk || bf.a.offset() != 4) { printf("X 0 0 0 0 0\n"); continue; }
       uint32_t w; memcpy(&w, bf.code.text_section()->buffer().data(), 4);
       printf("X 1 %u %u %u %u\n", w >> 31, (w >> 22) & 1u, (w >> 16) & 63u, (w >> 10) & 63u);
+    }
+    else if (c == 'Y') {
+      unsigned op, form, size, acc, optsize, longform; long long imm;
+      if (sscanf(line + 1, "%u %u %u %u %u %u %lld", &op, &form, &size, &acc, &optsize, &longform, &imm) != 7 || !xa.init() || op > 7) { printf("BAD\n"); continue; }
+      static const InstId ids[8] = { x86::Inst::kIdAdd, x86::Inst::kIdOr, x86::Inst::kIdAdc, x86::Inst::kIdSbb, x86::Inst::kIdAnd, x86::Inst::kIdSub, x86::Inst::kIdXor, x86::Inst::kIdCmp };
+      xa.a.set_offset(0);
+      xa.a.clear_encoding_options(EncodingOptions::kOptimizeForSize);
+      if (optsize) xa.a.add_encoding_options(EncodingOptions::kOptimizeForSize);
+      if (longform) xa.a.add_inst_options(InstOptions::kLongForm);
+      Error err;
+      if (form == 0) {
+        x86::Gp r;
+        uint32_t id = acc ? 0u : 1u;
+        switch (size) { case 1: r = x86::gpb(id); break; case 2: r = x86::gpw(id); break; case 4: r = x86::gpd(id); break; default: r = x86::gpq(id); break; }
+        err = xa.a.emit(ids[op], r, Imm(int64_t(imm)));
+      }
+      else {
+        x86::Mem m = x86::ptr(x86::rcx, 0, size);
+        err = xa.a.emit(ids[op], m, Imm(int64_t(imm)));
+      }
+      size_t n = xa.a.offset();
+      if (err != Error::kOk || n == 0 || n > 16) { printf("Y 0 0 0 0 0 0 0\n"); continue; }
+      const uint8_t* b = xa.code.text_section()->buffer().data();
+      size_t i = 0; unsigned has66 = 0, rexw = 0;
+      if (b[i] == 0x66) { has66 = 1; i++; }
+      if ((b[i] & 0xF0) == 0x40) { rexw = (b[i] >> 3) & 1u; i++; }
+      unsigned opc = b[i++];
+      unsigned shortf = (opc < 0x40 && ((opc & 7) == 4 || (opc & 7) == 5)) ? 1u : 0u;
+      if (!shortf) i++;   // ModRM (register direct or [rcx]: no SIB, no displacement)
+      uint64_t field = 0; unsigned immsize = unsigned(n - i);
+      for (size_t k = 0; k < immsize && k < 8; k++) field |= uint64_t(b[i + k]) << (8 * k);
+      printf("Y 1 %u %u %u %u %u %" PRIu64 "\n", has66, rexw, shortf, opc, immsize, field);
     }
     else if (c == 'E') {
       unsigned w, nb; long long off;
